@@ -318,22 +318,7 @@ def schema_source_rule(ctx):
               vc_, vc_.node, detail="const / enum on the discriminator property of each member")
     # ---------------- R12: allOf composition of object schemas
     ctx.rule("C06.R12", "an object schema placed in an `allOf` next to other object schemas is open (additionalProperties not false): each member only sees its own properties, closure is the job of unevaluatedProperties", floor=2)
-    ob12 = model.func(f"{SBB}.object")
-    pm12 = {c: p for p in ast.walk(ob12.node) for c in ast.iter_child_nodes(p)}
-    opened = {}
-    for a in ast.walk(ob12.node):
-        if isinstance(a, ast.Assign) and norm(a.targets[0]) == "additional_properties" and isinstance(a.value, ast.Constant) and a.value.value is True:
-            opened[a] = norm(_pc(ob12.node, a, pm12))
-    composed = [r for r in ast.walk(ob12.node) if isinstance(r, ast.Return) and isinstance(r.value, ast.Call) and dotted(r.value.func) == "json_schema" and any(k.arg == "allOf" for k in r.value.keywords)]
-    ctx.require(len(composed) >= 2, "SchemaBuilder.object: allOf compositions not found")
-    for r in composed:
-        cond = norm(_pc(ob12.node, r, pm12))
-        # what makes this composition happen, and is the own member opened under the same circumstance?
-        cause = "flattened_schemas" if "flattened_schemas" in cond and "not flattened_schemas" not in cond else "discriminator_parent"
-        ok = any(cause.split("_")[0] in c_ or (cause == "discriminator_parent" and "discriminator_parent" in c_) for c_ in opened.values())
-        ctx.check(ok, "C06.R12", f"{ob12.qualname}:allOf:{cause}", r,
-                  f"the object's own member of the `allOf` built for {cause.replace('_', ' ')} keeps `additionalProperties: false` (and flattened classes are referenced through their closed definitions): every member rejects the properties of the others, so the schema rejects the data deserialize accepts",
-                  ob12, r, detail="additional_properties = True on this path")
+    allof_composition_rule(ctx, "C06.R12")
     # ---------------- R9: mapping keys
     ctx.rule("C06.R9", "Mapping schema: every keyword of the key's schema is enforced on property names (the deserializer validates each key with the key type's method)", floor=2)
     mp = model.func(f"{SBB}.mapping")
@@ -354,6 +339,26 @@ def schema_source_rule(ctx):
             ctx.check(exhaustive, "C06.R9", f"{mp.qualname}:other-key-keywords", r,
                       "a key schema with keywords other than `type` / `pattern` (minLength, maxLength, enum of a Literal key, format) is reduced to a bare `additionalProperties`: the schema accepts any property name while deserialize validates each key", mp, r, detail="only for key == {type: string}, else propertyNames")
     ctx.require(n9 >= 2, "SchemaBuilder.mapping: return sites not recognised")
+
+
+def allof_composition_rule(ctx, rule):
+    model = ctx.model
+    ob12 = model.func(f"{SBB}.object")
+    pm12 = {c: p for p in ast.walk(ob12.node) for c in ast.iter_child_nodes(p)}
+    opened = {}
+    for a in ast.walk(ob12.node):
+        if isinstance(a, ast.Assign) and norm(a.targets[0]) == "additional_properties" and isinstance(a.value, ast.Constant) and a.value.value is True:
+            opened[a] = norm(_pc(ob12.node, a, pm12))
+    composed = [r for r in ast.walk(ob12.node) if isinstance(r, ast.Return) and isinstance(r.value, ast.Call) and dotted(r.value.func) == "json_schema" and any(k.arg == "allOf" for k in r.value.keywords)]
+    ctx.require(len(composed) >= 2, "SchemaBuilder.object: allOf compositions not found")
+    for r in composed:
+        cond = norm(_pc(ob12.node, r, pm12))
+        # what makes this composition happen, and is the own member opened under the same circumstance?
+        cause = "flattened_schemas" if "flattened_schemas" in cond and "not flattened_schemas" not in cond else "discriminator_parent"
+        ok = any(cause.split("_")[0] in c_ or (cause == "discriminator_parent" and "discriminator_parent" in c_) for c_ in opened.values())
+        ctx.check(ok, rule, f"{ob12.qualname}:allOf:{cause}", r,
+                  f"the object's own member of the `allOf` built for {cause.replace('_', ' ')} keeps `additionalProperties: false` (and flattened classes are referenced through their closed definitions): every member rejects the properties of the others, so the schema rejects the data deserialize accepts",
+                  ob12, r, detail="additional_properties = True on this path")
 
 
 def keyword_filter_rule(ctx):
